@@ -44,6 +44,8 @@ Definition digs64 (d n : Z) : list Z := digs64_aux (Z.to_nat n) d.
 Definition vit (xs : list Z) : list (Z * Z) := map (fun x => (Z.shiftr x 6, x)) xs.
 Definition hq (l : list Z) : list Z * list Z := (l, l).           (* kept slice unchanged *)
 Definition hp (a b : list Z) : list Z * list Z := (a, b).         (* copy at return, re-read at the end *)
+(* a goroutine's program written as r repetitions of a short cycle of calls *)
+Definition rep (r : Z) (c : list op) : list op := concat (repeat c (Z.to_nat r)).
 Definition rP : gout := None.                                  (* the call panicked *)
 Definition rU : gout := Some RUnit.
 Definition rM : gout := Some (RVal None).                      (* miss *)
@@ -87,7 +89,16 @@ Inductive case :=
      value keys[j]*64+j and size sizes[j]; 2 Get, 5 Peek, 6 Exist); after all goroutines have returned, bit j of the trial's
      mask says whether keys[j] is found by Exist and Peek with that value (mask -1: Exist and Peek disagree or a foreign
      value).  outcomes = the masks of all trials of the batch, run-length encoded (mask, number of trials). *)
-| CFirst (v : variant) (cap0 n : Z) (tab : option (list (Z * nat))) (keys sizes codes : list Z) (outcomes : list (Z * Z)) (panicked : bool).
+| CFirst (v : variant) (cap0 n : Z) (tab : option (list (Z * nat))) (keys sizes codes : list Z) (outcomes : list (Z * Z)) (panicked : bool)
+  (* a call that did not return: after the history `steps` one of the calls `pending` (or an accessor) was still blocked
+     after the harness's generous bound (20 s; the calls take microseconds) *)
+| CHung (v : variant) (cap0 : Z) (steps : list sstep) (pending : list op)
+  (* own-key churn: goroutine g runs progs[g] on keys no other goroutine writes (Set / SetIfAbsent / SetAndGetRemoved / Delete
+     / reads), all goroutines concurrently on one fresh cache (wide = Some (shards, routing table) for a facade) that can hold
+     every key with its largest size; observed at quiescence: panics, Exist/Peek of every written key, and for a single cache
+     Keys/Items/Stats/the single accessors *)
+| CChurn (v : variant) (cap0 : Z) (wide : option (Z * option (list (Z * nat)))) (progs : list (list op))
+         (panicked : bool) (probe : list bprobe) (final : option snap).
 
 (* ---------------- decidable equalities ---------------- *)
 Definition res_eqb (a b : res) : bool :=
@@ -396,6 +407,62 @@ Definition first_dom (v : variant) (cap0 n : Z) (route : Z -> nat) (keys sizes c
 Definition first_ok (codes : list Z) (outcomes : list (Z * Z)) (panicked : bool) : bool :=
   negb panicked && forallb (fun oc => (fst oc =? expected_mask codes 1) && (0 <? snd oc)) outcomes.
 
+(* ---------------- own-key churn ----------------
+   The goroutines write disjoint key sets and the cache can hold every key with its largest size, so nothing is ever evicted
+   and what a key holds at the end depends only on the calls on that key, which all come from one goroutine in program order
+   (C04_Churn.v).  Hence every linearisation ends with the same contents as the goroutines run one after the other: the same
+   key -> value map, Length = number of surviving keys, Size = their summed size, Evictions = 0.  (The recency order does
+   depend on the interleaving and is not compared.) *)
+Definition op_key (o : op) : list Z :=
+  match o with Get k | Peek k | Exist k | Set_ k _ _ | SetAndGetRemoved k _ _ | SetIfAbsent k _ _ | Delete k => [k] | _ => [] end.
+Definition op_wsize (v : variant) (o : op) : list (Z * Z) :=
+  match norm v o with Set_ k _ s | SetAndGetRemoved k _ s | SetIfAbsent k _ s => [(k, s)] | _ => [] end.
+Definition is_write_op (o : op) : bool := match o with Set_ _ _ _ | SetAndGetRemoved _ _ _ | SetIfAbsent _ _ _ | Delete _ => true | _ => false end.
+Definition churn_keys (progs : list (list op)) : list Z := nodup Z.eq_dec (flat_map op_key (concat progs)).
+(* the largest size ever written to k *)
+Definition kbound (v : variant) (ops : list op) (k : Z) : Z :=
+  fold_right Z.max 0 (map snd (filter (fun p => fst p =? k) (flat_map (op_wsize v) ops))).
+Definition churn_dom (v : variant) (cap0 : Z) (wide : option (Z * option (list (Z * nat)))) (progs : list (list op)) : bool :=
+  let ops := concat progs in
+  let cap := match wide with Some (n, _) => shard_cap cap0 n | None => cap0 end in
+  inB cap0 && forallb op_domb ops
+  && forallb (fun o => match o with Clear | SetCapacity _ => false | _ => true end) ops
+  (* a key is written by at most one goroutine (others may read it) *)
+  && forallb (fun k => (length (filter (fun p => zmem k (flat_map op_key (filter is_write_op p))) progs) <=? 1)%nat)
+       (nodup Z.eq_dec (flat_map op_key (filter is_write_op ops)))
+  && (zsum (map (kbound v ops) (churn_keys progs)) <=? cap)
+  && match wide with Some (n, _) => (1 <=? n) && (cap0 <? B) | None => true end.
+
+Definition churn_ok (v : variant) (cap0 : Z) (wide : option (Z * option (list (Z * nat)))) (progs : list (list op))
+           (panicked : bool) (probe : list bprobe) (final : option snap) : bool :=
+  let ops := map (norm v) (concat progs) in
+  let univ := churn_keys progs in
+  negb panicked &&
+  match wide, final with
+  | None, Some (keys, items, s, t) =>
+      let '(l, cp, ev) := fst (irun (new_istate cap0) ops) in
+      let '(len, sz, cp', ev') := s in
+      nodupb keys && zlist_eqb keys (map fst items) && stats_eqb s t
+      && (len =? Z.of_nat (length keys)) && (Z.of_nat (length keys) =? Z.of_nat (length l))
+      && forallb (fun it => match lookup (fst it) l with Some e => valof e =? snd it | None => false end) items
+      && (sz =? total l) && (cp' =? cap0) && (ev' =? 0) && (ev =? 0)
+      && list_eqb bprobe_eqb probe (expected_probe items univ)
+  | Some (n, tab), None =>
+      let route := wroute n tab in
+      let run := fix go (ish : iwstate) (os : list op) : iwstate :=
+        match os with
+        | [] => ish
+        | o :: r => let i := route (match op_key o with k :: _ => k | [] => 0 end) in
+                    go (upd ish i (fst (istep (ish i) o))) r
+        end in
+      let ish := run (iwide_init cap0 n) ops in
+      list_eqb bprobe_eqb probe
+        (map (fun k => match lookup k (ilist (ish (route k))) with Some e => (k, true, Some (valof e)) | None => (k, false, None) end) univ)
+  | _, _ => false
+  end.
+
+Definition hung_dom (cap0 : Z) (steps : list sstep) (pending : list op) : bool := seq_dom cap0 steps && forallb op_domb pending.
+
 (* ---------------- the two functions the driver evaluates ---------------- *)
 Definition case_accept (c : case) : bool :=
   match c with
@@ -409,6 +476,8 @@ Definition case_accept (c : case) : bool :=
   | CRem v cap0 lo m lists panicked final => rem_ok v cap0 lo m lists panicked final
   | CStat v cap0 c reads panicked final => stat_ok v cap0 c reads panicked final
   | CFirst v cap0 n tab keys sizes codes outcomes panicked => first_ok codes outcomes panicked
+  | CHung _ _ _ _ => false                          (* the model's calls always return *)
+  | CChurn v cap0 wide progs panicked probe final => churn_ok v cap0 wide progs panicked probe final
   end.
 
 (* outside the property's quantifier (negative or absurdly large sizes / capacities) nothing is claimed *)
@@ -427,6 +496,9 @@ Definition case_holds (c : case) : bool :=
   | CStat v cap0 c reads panicked final => if inB cap0 && inB c then stat_ok v cap0 c reads panicked final else true
   | CFirst v cap0 n tab keys sizes codes outcomes panicked =>
       if first_dom v cap0 n (wroute n tab) keys sizes codes then first_ok codes outcomes panicked else true
+  | CHung v cap0 steps pending => negb (hung_dom cap0 steps pending)   (* inside the domain every call returns (c04_no_panic) *)
+  | CChurn v cap0 wide progs panicked probe final =>
+      if churn_dom v cap0 wide progs then churn_ok v cap0 wide progs panicked probe final else true
   end.
 
 (* ---------------- soundness ---------------- *)
@@ -512,7 +584,7 @@ Theorem case_sound : forall c, case_accept c = true -> case_holds c = true.
 Proof.
   intros [v cap0 steps|v capacity n tab univ steps|v cap0 evs final|v cap0 wide univ sizes progs panicked probe final
          |v cap0 ng univ obs panicked probe final|v cap0 steps held|v cap0 lo m lists panicked final|v cap0 c reads panicked final
-         |v cap0 n tab keys sizes codes outcomes panicked];
+         |v cap0 n tab keys sizes codes outcomes panicked|v cap0 steps pending|v cap0 wide progs panicked probe final];
     cbn [case_accept case_holds]; intros Ha.
   - destruct (seq_dom cap0 steps) eqn:Ed; [|reflexivity]. unfold seq_dom in Ed. apply andb_prop in Ed as [Hc Hd].
     apply inB_spec in Hc. change (new_istate cap0) with (abs (new_lru cap0)).
@@ -534,4 +606,6 @@ Proof.
   - destruct (rem_dom cap0 lo m); [exact Ha|reflexivity].
   - destruct (inB cap0 && inB c); [exact Ha|reflexivity].
   - destruct (first_dom v cap0 n (wroute n tab) keys sizes codes); [exact Ha|reflexivity].
+  - discriminate.
+  - destruct (churn_dom v cap0 wide progs); [exact Ha|reflexivity].
 Qed.
